@@ -133,7 +133,7 @@ contract(SH + ".shex_graph",
     params={"string_output": Bool, "output_file": O, "output_format": Str, "acceptance_threshold": Real, "to_uml_path": O},
     returns=O, raises=SHEX_INVALID, requires=[CACHE_INV],
     ensures=[CACHE_INV, "self._shape_list is not None", "thr_of(some(self._shape_list)) == acceptance_threshold"],
-    modifies=["*"], props=["C20", "C04", "C18"],
+    modifies=["*"], props=["C20", "C04", "C18", "C12"],
     note="ValueError iff no sink / unknown format / threshold outside [0,1]; the shapes that get serialised were computed for THIS call's threshold (cache invariant)")
 contract(SH + ".profile_graph", params={"string_output": Bool, "output_file": O}, returns=O,
     raises=[("ValueError", "(not string_output) and output_file is None")], modifies=["*"], props=["C04"],
